@@ -120,6 +120,7 @@ func checkC08(c *Ctx) {
 	r := c.R
 	r.Explain = "Running the generated modules is outside static analysis; route/verb/placement agreement is decided by C03, error mapping by C10, type declarations by C07. Decided here on the reconstructed TypeScript modules (emission grammar, nothing is executed; TypeScript is read with a lexer, not type-checked): R08a every identifier in call or construction position of every reconstructed module (deep exploration, every arm, and a per-iteration enumeration in which the two services and their two methods independently declare or do not declare headers) is declared in the module, a parameter or a platform global — a helper whose emission guard disagrees with its use sites makes the module throw ReferenceError at the first request. R08b the TS client wraps every path substitution in encodeURIComponent and builds the query with URLSearchParams; the TS server applies decodeURIComponent to every extracted segment and reads url.searchParams. R08c in the TS client, the Go client and the TS server's route configuration the header name written/validated is the declared name itself (hole key GetName(), no transformation) and the option/property name is derived from that same header. R08d the TS client sends JSON.stringify(req) exactly for POST/PUT/PATCH with Content-Type application/json and reads resp.json(); the TS server reads req.json() for the same verbs and answers JSON.stringify with the same content type. R08f the TS server selects the string-to-field conversion of path and query parameters with the function the request interface is declared with. R08g on a grid of configurations (base path × config absent / verb only / path only / both) the verb and the path literal reconstructed from the TS client and from the TS server are the same strings. Not decided: runtime behaviour of fetch/URL, TypeScript typing, values."
 	r.Rule("R08a", "every called identifier of every reconstructed TypeScript module is declared, a parameter or a platform global", 4)
+	r.Rule("R08j", "every reconstructed TypeScript module is lexically loadable: delimiters balance and no block-scoped name is declared twice in one block, also when several services of a file use headers (shared with C13/R13h)", 2)
 	r.Rule("R08b", "path substitutions are percent-encoded by the client and decoded by the server; query via URLSearchParams", 4)
 	r.Rule("R08c", "typed header options write exactly the declared header name", 6)
 	r.Rule("R08d", "JSON bodies: stringify/json pairing and content type, for the body verbs", 6)
@@ -139,8 +140,21 @@ func checkC08(c *Ctx) {
 		}
 		ex := c.ExploreDeep(ri.Fn, level, 40000)
 		bad := map[string]string{}
+		loadBad, loadPos, loadDec := "", "", ""
+		noteLoad := func(u *Unit, dec string) {
+			if loadBad != "" {
+				return
+			}
+			if probs := tsCheck(u.Text()); len(probs) > 0 {
+				loadBad, loadDec = probs[0].Msg, dec
+				if ln := probs[0].Line; ln >= 1 && ln <= len(u.Lines) {
+					loadPos = c.P.Pos(u.Lines[ln-1].Pos)
+				}
+			}
+		}
 		for _, v := range ex.Variants {
 			for _, u := range v.Units {
+				noteLoad(u, v.DecString())
 				for _, n := range tsUndeclaredCalls(u.Text()) {
 					if _, ok := bad[n]; !ok {
 						bad[n] = v.DecString()
@@ -189,6 +203,7 @@ func checkC08(c *Ctx) {
 				continue
 			}
 			for _, u := range run.Units {
+				noteLoad(u, fmt.Sprintf("service headers %d/%d, method headers %d,%d / %d,%d (0 = none)", svc(0), svc(1), meth(0, 0), meth(0, 1), meth(1, 0), meth(1, 1)))
 				if und := tsUndeclaredCalls(u.Text()); len(und) > 0 {
 					key := fmt.Sprintf("%s *%s: %s is called but not declared (services/methods differing in headers)", pkgShort(spec[0]), spec[1], strings.Join(und, ","))
 					r.Bad("R08a", key, pos,
@@ -197,6 +212,11 @@ func checkC08(c *Ctx) {
 			}
 		}
 		r.OKd("R08a", fmt.Sprintf("%s *%s: %d header-placement combinations are self-contained", pkgShort(spec[0]), spec[1], nRuns), pos, nil)
+		if loadPos == "" {
+			loadPos = pos
+		}
+		r.CheckD(loadBad == "", "R08j", pkgShort(spec[0])+" *"+spec[1]+": every reconstructed module can be loaded (explored variants and header-placement combinations)", loadPos,
+			"an emitted TypeScript module cannot be loaded, so no RPC of the file reaches its handler: "+loadBad+" ("+loadDec+")", map[string]any{"variants": len(ex.Variants), "combinations": nRuns})
 	}
 
 	c08URL(c)
